@@ -3330,10 +3330,14 @@ func (t *transport) RoundTrip(hc *HostClient, req *Request, resp *Response) (ret
 				return nil
 			}
 			hc.ReleaseReader(br)
+			// A stream closed before the end of the body leaves the rest of the body on the
+			// connection; such a connection must not be reused for another request.
+			drained := true
 			if r, ok := rbs.(*requestStream); ok {
+				drained = r.drained()
 				releaseRequestStream(r)
 			}
-			if closeConn || resp.ConnectionClose() || wErr != nil {
+			if closeConn || resp.ConnectionClose() || wErr != nil || !drained {
 				hc.CloseConn(cc)
 			} else {
 				hc.ReleaseConn(cc)
